@@ -1420,6 +1420,61 @@ def run_rf_general(case, ctx):
             ctx.eq(int(t1.rf_distance(t2)), exp, "Tree.rf_distance (internal samples)")
 
 
+# ------------------------------------------------------------------ large sample sets (closed forms on star trees)
+def enum_large_sets(tier, seed):
+    for k in ([30000, 70000] if tier == "quick" else [21845, 21846, 30000, 46341, 65536, 70000, 140000]):
+        yield dict(k=k)
+
+
+def run_large_sets(case, ctx):
+    """Sample sets of tens of thousands of nodes (counts beyond 16 and 32 bits in intermediate products) on a
+    star tree, where the definitions have closed forms."""
+    import numpy as np
+    import tskit
+
+    k = case["k"]
+    t = tskit.TableCollection(1.0)
+    flags = np.ones(k + 1, dtype=np.uint32)
+    flags[k] = 0
+    time = np.zeros(k + 1)
+    time[k] = 1.0
+    t.nodes.set_columns(flags=flags, time=time)
+    t.edges.set_columns(left=np.zeros(k), right=np.ones(k), parent=np.full(k, k, dtype=np.int32),
+                        child=np.arange(k, dtype=np.int32))
+    nmut = 3
+    for j in range(nmut):
+        t.sites.add_row((j + 1) / 8, "A")
+        t.mutations.add_row(j, j, "T")
+    ts = t.tree_sequence()
+    ctx.nt(True)
+    n = k
+    # site diversity: each singleton site contributes 2 (n-1) / (n (n-1)) = 2/n per site; L = 1
+    ctx.close(float(ts.diversity()), nmut * 2.0 / n, "diversity (star)")
+    ctx.close(float(ts.segregating_sites()), float(nmut), "segregating_sites (star)")
+    h = sum(1.0 / i for i in range(1, n))
+    g = sum(1.0 / (i * i) for i in range(1, n))
+    a = (n + 1) / (3 * (n - 1) * h) - 1 / h**2
+    b = 2 * (n * n + n + 3) / (9 * n * (n - 1)) - (n + 2) / (h * n) + g / h**2
+    S, T = float(nmut), nmut * 2.0 / n
+    D = (T - S / h) / np.sqrt(a * S + (b / (h**2 + g)) * S * (S - 1))
+    ctx.close(float(ts.Tajimas_D()), D, "Tajimas_D (star)", rtol=1e-7)
+    # branch diversity: every pair is at distance 2
+    ctx.close(float(ts.diversity(mode="branch")), 2.0, "branch diversity (star)", rtol=1e-7)
+    # genealogical nearest neighbours with two reference sets covering all samples
+    half = k // 2
+    A, B = np.arange(half, dtype=np.int32), np.arange(half, k, dtype=np.int32)
+    for nt in (0, 2):
+        gnn = ts.genealogical_nearest_neighbours([0, k - 1], [A, B], num_threads=nt)
+        exp = [[(half - 1) / (k - 1), (k - half) / (k - 1)], [half / (k - 1), (k - half - 1) / (k - 1)]]
+        ctx.close(gnn, exp, f"genealogical_nearest_neighbours (star, num_threads={nt})", rtol=1e-9)
+    md = ts.mean_descendants([A, B])
+    ctx.close(md[k], [float(half), float(k - half)], "mean_descendants root (star)")
+    ctx.close(md[0], [1.0, 0.0], "mean_descendants leaf (star)")
+    # divergence between the halves: all cross pairs differ only at the singleton sites they carry
+    ctx.close(float(ts.divergence([A, B])), (nmut * (k - half)) / (half * (k - half)) if nmut <= half else 0.0,
+              "divergence (star)")
+
+
 # ------------------------------------------------------------------ (E) Python threads sharing one tree sequence
 def big_spec(seed, k, nt, nsites):
     """Deterministic function of its arguments (seeded PRNG; the arguments are Hypothesis draws):
@@ -1566,6 +1621,9 @@ SUBCHECKS = [
     SubCheck("C08.rf_general", run_rf_general, strategy=rf_general_case, quick=1200, thorough=36000,
              rule="tree sequence with >=2 single-rooted trees whose leaves are all samples, at least one with an internal sample",
              floors={"pairs": 0.5, "internal_sample": 0.3}),
+    SubCheck("C08.large_sets", run_large_sets, enumerate=enum_large_sets, quick=1, thorough=1, shards=2,
+             rule="star trees with 30000 and 70000 samples (thorough: up to 140000): closed forms for diversity, segregating sites, "
+                  "Tajimas_D, divergence, GNN and mean_descendants"),
 ]
 
 _PROBE_GRV = dict(
